@@ -233,3 +233,262 @@ async fn one_life(case: &Case, store: &ModelStore, group: &e2::Group) -> Result<
 pub fn parts() -> Vec<Box<dyn DynPart>> {
     vec![Box::new(Gen::new(C07, 100_000, 5_000_000))]
 }
+
+// ---------------------------------------------------------------------------------------
+// Part `cluster-restart` (E3): a node of a running cluster is stopped (between requests or inside a
+// storage call), the others keep working, the node comes back on the same storage; its rebuilt sets must
+// equal what storage holds, everything it had acknowledged must still be there, and the cluster must
+// converge to the LWW model afterwards.
+
+pub mod cluster {
+    use std::collections::BTreeMap;
+    use std::time::Duration;
+
+    use serde_json::{json, Value};
+
+    use crate::c01::{check_converged, gen_nodes, gen_op, ks_name, op_json, run_op, Op};
+    use crate::core::{Outcome, Pass, Prop, Src};
+    use crate::e2::{actor_view, store_view};
+    use crate::e3::{self, Layout};
+    use crate::ensure;
+    use crate::model::Stamp;
+    use crate::registry::{DynPart, Gen};
+
+    #[derive(Debug, Clone)]
+    pub struct Case {
+        pub nodes: Vec<(u8, String)>,
+        pub before: Vec<Op>,
+        pub victim: usize,
+        /// the victim dies inside its next storage write (the write is done, the call never returns)
+        pub inside_write: bool,
+        /// operations issued elsewhere while the victim is down
+        pub during: Vec<Op>,
+        pub after: Vec<Op>,
+        pub seed: u64,
+    }
+
+    pub struct Restart;
+
+    impl Prop for Restart {
+        type Case = Case;
+
+        fn id(&self) -> &'static str {
+            "C07"
+        }
+
+        fn part(&self) -> &'static str {
+            "cluster-restart"
+        }
+
+        fn width(&self) -> usize {
+            120
+        }
+
+        fn shrink_budget(&self) -> usize {
+            400
+        }
+
+        fn breadcrumbs(&self) -> bool {
+            true
+        }
+
+        fn gen(&self, src: &mut Src) -> Case {
+            let nodes = gen_nodes(src, 4);
+            let n = nodes.len();
+            let n_keys = 1 + src.below64(4);
+            let before = (0..1 + src.below(8)).map(|_| gen_op(src, n, 2, n_keys)).collect();
+            let victim = src.below(n);
+            let inside_write = src.chance(1, 3);
+            let others: Vec<usize> = (0..n).filter(|i| *i != victim).collect();
+            let fix = |op: Op, pick: usize| -> Op {
+                // operations while the victim is down are issued at the other nodes
+                match op {
+                    Op::Put { ks, key, len, level, .. } => Op::Put { node: pick, ks, key, len, level },
+                    Op::PutMany { ks, keys, len, level, .. } => Op::PutMany { node: pick, ks, keys, len, level },
+                    Op::Del { ks, key, level, .. } => Op::Del { node: pick, ks, key, level },
+                    Op::DelMany { ks, keys, level, .. } => Op::DelMany { node: pick, ks, keys, level },
+                    o => o,
+                }
+            };
+            let mut during = vec![];
+            for _ in 0..src.below(6) {
+                let op = gen_op(src, n, 2, n_keys);
+                let pick = others[src.below(others.len())];
+                during.push(fix(op, pick));
+            }
+            let after = (0..src.below(5)).map(|_| gen_op(src, n, 2, n_keys)).collect();
+            Case { nodes, before, victim, inside_write, during, after, seed: src.word() }
+        }
+
+        fn run(&self, case: &Case) -> Outcome {
+            e3::sim(case.seed, 70_000_000, BTreeMap::new(), |_net| run(case))
+        }
+
+        fn describe(&self, case: &Case) -> Value {
+            json!({
+                "nodes": case.nodes,
+                "before_the_stop": case.before.iter().map(op_json).collect::<Vec<_>>(),
+                "stopped_node": case.nodes[case.victim].0,
+                "dies_inside_a_storage_write": case.inside_write,
+                "while_it_is_down": case.during.iter().map(op_json).collect::<Vec<_>>(),
+                "after_the_restart": case.after.iter().map(op_json).collect::<Vec<_>>(),
+            })
+        }
+
+        fn rule(&self) -> &'static str {
+            "2-4 real nodes with the eventual-consistency extension; 1-8 operations through the public handles, then one \
+             node is stopped hard (server gone, storage handle fenced) -- in a third of the cases inside its next storage \
+             write (write done, call never returns) --, 0-5 operations are issued at the other nodes while it is down, it \
+             restarts on the same storage, 0-4 more operations follow; oracle: right after the restart, for every \
+             keyspace storage lists, the node's rebuilt set == its storage (ids, tombstones, stamps); every document it \
+             wrote itself before the stop is still there with the same or a newer stamp; after 1 s + 3 repair intervals \
+             all nodes return the LWW documents; non-trivial = the stopped node held >=1 entry and something was written \
+             while it was down"
+        }
+    }
+
+    async fn run(case: &Case) -> Outcome {
+        let repair = Duration::from_secs(5);
+        let layout = Layout { nodes: case.nodes.clone(), repair_interval: repair };
+        let mut nodes = e3::start_cluster(&layout).await;
+        let t0 = tokio::time::Instant::now();
+        for op in &case.before {
+            run_op(&nodes, op).await;
+        }
+        // Stop the node between poller cycles: a peer that dies in the middle of a repair makes the other side's
+        // poller wait on a std::time (wall clock) watchdog which a paused-time simulation cannot advance.
+        e3::align_after_poller_cycle(t0, repair).await;
+        e3::advance(700).await;
+
+        let victim_id = case.nodes[case.victim].0;
+        if case.inside_write {
+            // the next mutating storage call of the victim performs its write and hangs; issue a local write to hit it
+            {
+                let store = &nodes[case.victim].store;
+                let mut g = store.inner.lock();
+                g.park_at = Some(g.mutating_calls);
+            }
+            let h = nodes[case.victim].handle.clone();
+            let t = tokio::spawn(async move {
+                let _ = h.put("ks0", 3, vec![1, 2, 3], datacake_node::Consistency::None).await;
+            });
+            for _ in 0..50 {
+                tokio::task::yield_now().await;
+                if nodes[case.victim].store.inner.lock().parked || t.is_finished() {
+                    break;
+                }
+            }
+        }
+        // what the victim had written itself (acknowledged or at least persisted) before it died
+        let own_writes: Vec<(String, u64, Stamp)> = nodes[case.victim]
+            .store
+            .inner
+            .lock()
+            .log
+            .iter()
+            .filter(|(_, _, ts, _)| ts.node() == victim_id)
+            .map(|(ks, id, ts, _)| (ks.clone(), *id, Stamp::of(*ts)))
+            .collect();
+        let held_before: usize = (0..2).map(|k| nodes[case.victim].store.metadata(&ks_name(k)).len()).sum();
+
+        let victim = nodes.remove(case.victim);
+        let (id, dc, store) = e3::kill_node(victim).await;
+        let mut wrote_while_down = false;
+        for op in &case.during {
+            // node indices of `during` refer to the full node list: map to the remaining nodes by id
+            let remap = |n: usize| -> usize {
+                let want = case.nodes[n].0;
+                nodes.iter().position(|x| x.id == want).unwrap_or(0)
+            };
+            let mapped = match op.clone() {
+                Op::Put { node, ks, key, len, level } => Op::Put { node: remap(node), ks, key, len, level },
+                Op::PutMany { node, ks, keys, len, level } => Op::PutMany { node: remap(node), ks, keys, len, level },
+                Op::Del { node, ks, key, level } => Op::Del { node: remap(node), ks, key, level },
+                Op::DelMany { node, ks, keys, level } => Op::DelMany { node: remap(node), ks, keys, level },
+                o => o,
+            };
+            if !matches!(mapped, Op::Advance(_)) {
+                wrote_while_down = true;
+            }
+            run_op(&nodes, &mapped).await;
+        }
+
+        // restart on the same storage
+        let members = e3::members_of(&case.nodes);
+        let fresh = e3::start_node(id, &dc, store.restart(), &members, repair).await;
+        // right after the restart: rebuilt sets == storage
+        let group = fresh.handle.verif_group().clone();
+        let listed = fresh.store.keyspace_names();
+        for k in 0..2 {
+            let name = ks_name(k);
+            if !listed.contains(&name) {
+                continue;
+            }
+            let rebuilt = actor_view(&group, &name).await;
+            let st = store_view(&fresh.store, &name);
+            ensure!(
+                rebuilt == st,
+                "rebuilt-differs-from-storage",
+                "restarted node {id}, keyspace {name}: rebuilt set {:?} but storage holds {:?}",
+                rebuilt,
+                st
+            );
+        }
+        for (ks, doc_id, t) in &own_writes {
+            let now = fresh.store.metadata(ks).get(doc_id).map(|(ts, _)| Stamp::of(*ts));
+            ensure!(
+                matches!(now, Some(n) if n >= *t),
+                "own-write-lost-by-restart",
+                "restarted node {id}: its own write of id {doc_id} in {ks} at {:?} is gone (storage now holds {:?})",
+                t,
+                now
+            );
+        }
+        nodes.insert(case.victim, fresh);
+        for op in &case.after {
+            run_op(&nodes, op).await;
+        }
+        e3::advance(1_000 + 3 * 5_000 + 500).await;
+        if std::env::var("VP_DEBUG").is_ok() {
+            if let Ok(extra) = std::env::var("VP_EXTRA_MS") {
+                e3::advance(extra.parse().unwrap()).await;
+            }
+            for n in &nodes {
+                let g = n.handle.verif_group().clone();
+                eprintln!("DEBUG node {} set ks0: {:?}", n.id, actor_view(&g, "ks0").await);
+            }
+            {
+                let g4 = nodes[3].handle.verif_group().clone();
+                let g1 = nodes[0].handle.verif_group().clone();
+                let s1 = crate::e2::actor_set(&g1, "ks0").await.unwrap();
+                let m = g4.get_or_create_keyspace("ks0").await;
+                let d = m.send(datacake_eventual_consistency::verif::Diff(s1)).await;
+                eprintln!("DEBUG node4.diff(node1) = {:?}", d);
+                let info1 = g1.get_keyspace_info().await;
+                let info4 = g4.get_keyspace_info().await;
+                eprintln!("DEBUG node1 keyspace info {:?}", info1.keyspace_timestamps.iter().map(|(k, v)| (k.clone(), crate::model::Stamp::of(*v).json())).collect::<Vec<_>>());
+                eprintln!("DEBUG node4 keyspace info {:?}", info4.keyspace_timestamps.iter().map(|(k, v)| (k.clone(), crate::model::Stamp::of(*v).json())).collect::<Vec<_>>());
+            }
+        }
+        check_converged(&nodes, 2, "after the restart, healing and 3 repair intervals")?;
+
+        let mut labels = vec![];
+        if case.inside_write {
+            labels.push("died_inside_storage_write");
+        }
+        if wrote_while_down {
+            labels.push("writes_while_down");
+        }
+        Ok(Pass { nontrivial: held_before > 0 && wrote_while_down, labels })
+    }
+
+    pub fn parts() -> Vec<Box<dyn DynPart>> {
+        vec![Box::new(Gen::new(Restart, 20_000, 1_000_000))]
+    }
+}
+
+pub fn parts_all() -> Vec<Box<dyn DynPart>> {
+    let mut p = parts();
+    p.extend(cluster::parts());
+    p
+}
